@@ -166,6 +166,7 @@ def compare_scenario(ctx, pid, scn, sr, inputs_list, concs, report):
                 report("C02", "uncovered:unmodelled-instruction-not-reported",
                        f"the input reaches the unmodelled instruction {conc.halt.split(':')[1]} but no stuck path reports it "
                        f"(covering paths: {[p.kind for _, p, _ in covering]})", base_replay)
+        compared = wrong = 0
         for j, p, pe in covering:
             if p.kind.startswith("stuck:"):
                 ctx.count("covered-by-stuck")
@@ -174,8 +175,10 @@ def compare_scenario(ctx, pid, scn, sr, inputs_list, concs, report):
                 ctx.count("covered-by-path-calling-a-precompile(not compared)")
                 continue
             ctx.count("path-checked:" + p.kind)
+            compared += 1
             # --- C01: the reported end state is what the EVM does
             if not halt_matches(p.kind, conc.halt):
+                wrong += 1
                 report("C01", f"outcome:{p.kind}-vs-{conc.halt}",
                        f"path {j} reports {p.kind} but the EVM ends in {conc.halt} for an input satisfying the path", dict(base_replay, path=j))
                 # --- C02, second sentence ("a branch, jump target ... is discarded only when it is proved infeasible"): every
@@ -196,6 +199,7 @@ def compare_scenario(ctx, pid, scn, sr, inputs_list, concs, report):
                 if got is not None and got != conc.data:
                     report("C01", f"data:{p.kind}",
                            f"path {j} ({p.kind}) returns {got.hex()} but the EVM returns {conc.data.hex()}", dict(base_replay, path=j, observed=got.hex()))
+                    wrong += 1
                     continue
             if p.kind == "success":
                 try:
@@ -225,6 +229,14 @@ def compare_scenario(ctx, pid, scn, sr, inputs_list, concs, report):
                     if ps["codes"].get(a) != code:
                         report("C01", "created-code", f"path {j}: code at {a:#x} differs from the EVM", dict(base_replay, path=j))
                         break
+        # --- C02 ("no feasible behaviour is dropped"; "a branch ... is discarded only when it is proved infeasible"): every
+        # path that admits this input ends differently from the EVM (halting kind or returned data), so what the EVM does on
+        # this input is shown by no reported path. Generated scenarios only: a directed scenario that records a known
+        # defect keeps the keys it is recorded under.
+        if compared and wrong == compared and not undecided and not flagged and not getattr(report, "directed", lambda: False)():
+            report("C02", f"no-path-exhibits-evm-outcome:{conc.halt}",
+                   f"every reported path admitting the input ({compared}) ends differently from the EVM ({conc.halt}, data "
+                   f"{conc.data.hex()[:128]}): the input's real behaviour is represented by no path", base_replay)
         if not covering and undecided:
             ctx.count("coverage-undecided")   # some path could not be evaluated: no coverage claim either way
         elif not covering:
@@ -374,6 +386,8 @@ def run(ctx, pid, features, n_scenarios, n_random_inputs, cfgs, malformed=0, poo
             ctx.violation(f"{prop}|{key}", what, replay)
         else:
             ctx.count(f"other-property-violation:{prop}|{key}")
+
+    report.directed = lambda: bool(current["name"])
 
     from . import sevm_corpus
 
